@@ -237,6 +237,25 @@ def run(P, tier="quick"):
                               for m in lp.walk())
                 if ordered:
                     readers.setdefault(adv, set()).add(g.key())
+    # direction of the ordered exit: element-index OP key, normalised with the chain element on the left
+    def exit_ops(g):
+        ops = set()
+        for lp in g.walk():
+            if lp.k not in ("ForStmt", "WhileStmt"):
+                continue
+            if not any(m.k == "MemberExpr" and (m.member or "").endswith("_hash_next") for m in lp.walk()):
+                continue
+            for m in lp.walk():
+                if m.k == "BinaryOperator" and m.op in (">", ">=", "<", "<="):
+                    l, r = m.kids[0], m.kids[1]
+                    lel = any(x.k == "MemberExpr" and x.member == "vpmr_index" for x in l.walk()) or \
+                        (l.strip().k == "DeclRefExpr" and l.strip().refname == "index")
+                    rel = any(x.k == "MemberExpr" and x.member == "vpmr_index" for x in r.walk())
+                    if lel and not rel:
+                        ops.add(m.op)
+                    elif rel and not lel:
+                        ops.add({">": "<", "<": ">", ">=": "<=", "<=": ">="}[m.op])
+        return ops
     for fld, ws in sorted(writers.items()):
         rs = readers.get(fld, set())
         pure_readers = rs - ws
@@ -244,8 +263,18 @@ def run(P, tier="quick"):
             continue
         for w in sorted(ws):
             file, name = w.split(":")
-            if w in rs:
-                R.ok("RET-INDEX|%s|%s|ordered-chain:%s" % (file, name, fld), {"C16", "C20"})
+            rops = set()
+            for r_ in pure_readers:
+                rf, rn = r_.split(":")
+                rops |= exit_ops(P.func(rn, rf))
+            wops = exit_ops(P.func(name, file)) if w in rs else set()
+            if w in rs and wops and rops and not (wops <= {o for o in rops} | {o + "=" for o in rops if len(o) == 1}):
+                R.violated(Finding("RET-INDEX", {"C16", "C20", "C17"}, file, name, "ordered-chain-direction:" + fld,
+                                   "%s stops its insertion search on `element index %s new index` but the readers stop scanning on "
+                                   "`element index %s key`: the chain order the readers rely on is not the order the writer builds" %
+                                   (name, "/".join(sorted(wops)), "/".join(sorted(rops))), P.func(name, file).line))
+            elif w in rs:
+                R.ok("RET-INDEX|%s|%s|ordered-chain:%s" % (file, name, fld), {"C16", "C20", "C17"})
             else:
                 R.violated(Finding("RET-INDEX", {"C16", "C20"}, file, name, "ordered-chain:" + fld,
                                    "%s links elements through %s without searching the insertion point in index order, but %s "
